@@ -442,6 +442,10 @@ func GenEtypes(r Rand, key string) LibEntry {
 var realmPool = []string{"EXAMPLE.COM", "TEST.GOKRB5", "ATHENA.MIT.EDU", "CORP.EXAMPLE.ORG", "SUB.TEST.GOKRB5", "R1", "Dev.Example.Net", "realm.lower", "X-Y.EXAMPLE", "A.B.C.D.E",
 	"example.com", "Test.Gokrb5", "r1"} // realm names are case sensitive: these are other realms than their upper-case namesakes
 var hostPool = []string{"kdc", "kdc1", "kdc2", "kerberos", "kerberos-1", "kadmin", "master", "srv-a", "srv-b", "k", "kpw", "host9"}
+
+// serverHostPool: names of servers may be written in any letter case (domain_realm keys, which MIT wants in lower case, draw
+// from hostPool only)
+var serverHostPool = append(append([]string{}, hostPool...), "KDC-Upper", "Kdc1", "kAdmin")
 var domPool = []string{"example.com", "test.gokrb5", "mit.edu", "corp.example.org", "dev.mit.edu", "x", "lab.local", "a.b.c.d.e"}
 
 // GenServer draws one server value.
@@ -449,9 +453,9 @@ func GenServer(r Rand, defPorts []int) Server {
 	s := Server{}
 	switch v := r.Intn(100); {
 	case v < 70:
-		s.Host = pick(r, hostPool...) + "." + pick(r, domPool...)
+		s.Host = pick(r, serverHostPool...) + "." + pick(r, domPool...)
 	case v < 80:
-		s.Host = pick(r, hostPool...)
+		s.Host = pick(r, serverHostPool...)
 	case v < 98:
 		s.Host = fmt.Sprintf("10.%d.%d.%d", r.Intn(256), r.Intn(256), 1+r.Intn(254))
 	default:
